@@ -240,6 +240,7 @@ fn run_one(id: &str, views: u32, s: &Script) -> CaseResult {
         cfg.clone_reentrant = (s.layout_seed >> 14) & 1 == 0 && cfg_id != "C11";
         cfg.default_ctor = match (s.layout_seed >> 16) & 7 { 0 => 2, 1 | 2 | 3 => 1, _ => 0 };
         cfg.dtor_unwrap = (s.layout_seed >> 40) & 1 == 1 && (cfg_id == "C10" || cfg_id == "C12");
+        cfg.dtor_stash = (s.layout_seed >> 41) & 1 == 1 && (cfg_id == "C02" || cfg_id == "C10" || cfg_id == "C16");
         if std::env::var_os("CX_LOG_PANIC").is_some() {
             crate::exec::LOG_PANIC_IN.store(((s.layout_seed >> 40) % 48) as u32, std::sync::atomic::Ordering::Relaxed);
         }
